@@ -35,6 +35,12 @@ SkeletonInstances(dummy) == { [n |-> 6, links |-> s] : s \in { x \in InjSeqs(Ske
 Skeleton2Pairs == { <<5, 6>>, <<2, 6>>, <<1, 6>>, <<1, 2>>, <<1, 5>>, <<1, 4>> }
 Skeleton2Instances(dummy) == { [n |-> 6, links |-> s] : s \in { x \in InjSeqs(Skeleton2Pairs, MaxLinks) : NoRepeat(x) } }
 
+\* five particles: a two-member new chain whose entry-side and exit-side back connections both hit the same orphaned
+\* particle (1 -> 2 traced, 3 put in front of 2 cuts 1 off, then 4 -> 5 with 1 -> 4 and 5 -> 1): only the closer of the two
+\* connections may be made; every instance over these pairs
+Skeleton3Pairs == { <<3, 2>>, <<4, 5>>, <<5, 1>>, <<1, 2>>, <<1, 4>>, <<2, 4>> }
+Skeleton3Instances(dummy) == { [n |-> 5, links |-> s] : s \in { x \in InjSeqs(Skeleton3Pairs, MaxLinks) : NoRepeat(x) } }
+
 \* instances handed over by the driver (classification of failing cases): ndjson records {n, links}
 FileInstances(dummy) == LET recs == ndJsonDeserialize(IOEnv.INSTANCE_FILE)
                         IN  { [n |-> recs[k].n, links |-> recs[k].links] : k \in DOMAIN recs }
@@ -67,10 +73,14 @@ SimNext == \/ /\ nxt = 0
            \/ (nxt > 0 /\ ANext)
 SimSpec == BuildInit /\ [][SimNext]_vars
 
+DoubleJoin6 == { [n |-> 6, links |-> << <<5, 6>>, <<2, 6>>, <<1, 6>>, <<1, 5>>, <<1, 4>>, <<1, 2>> >>] }
+
 FamilyInstances == CASE Family = "all"        -> AllInstances(0)
                      [] Family = "skeleton"   -> SkeletonInstances(0)
                      [] Family = "skeleton2"  -> Skeleton2Instances(0)
+                     [] Family = "skeleton3"  -> Skeleton3Instances(0)
                      [] Family = "file"       -> FileInstances(0)
                      [] Family = "appendixC6" -> AppendixC6
+                     [] Family = "doublejoin6" -> DoubleJoin6
                      [] OTHER                 -> {}
 =============================================================================
